@@ -314,6 +314,19 @@ func runProgram(p progIn) (res progOut) {
 			vs[i-1] = L.Get(i)
 		}
 		res.Emits = append(res.Emits, tk.toks(vs))
+		if len(res.Emits) > 4000 {
+			// runaway program: stop it (the run is reported as "budget", i.e. inconclusive)
+			ctx.mu.Lock()
+			ctx.timedOut = true
+			ctx.fired = true
+			ctx.cancelled = true
+			cbs := ctx.fire("verif-budget")
+			ctx.mu.Unlock()
+			for _, f := range cbs {
+				f()
+			}
+			L.RaiseError("verif-budget: too many events")
+		}
 		return 0
 	}))
 	L.SetGlobal("gret", L.NewFunction(func(L *lua.LState) int {
